@@ -692,7 +692,18 @@ impl Player {
                 served = served && again.ok() == Some(&rc);
             }
         }
-        json!({"ev": "Transact", "tx": abs, "nonce": step["nonce"], "chain": chain, "insc": step["insc"], "idx": step["idx"],
+        // the waiting set right after the call (pins the nondeterministic part of the drain in the reference machine)
+        let mut pool_after = Vec::new();
+        let pc = self.inst.call("txpool_content", json!([])).ok().cloned().unwrap_or(Value::Null);
+        if let Some(pm) = pc["pending"].as_object() {
+            for (acct, m) in pm {
+                let an = self.names.name_of_json(&json!(acct));
+                for (nonce, _) in m.as_object().cloned().unwrap_or_default() {
+                    pool_after.push(json!({"signer": an, "nonce": nonce.parse::<u64>().unwrap_or(u64::MAX)}));
+                }
+            }
+        }
+        json!({"ev": "Transact", "pool_after": pool_after, "tx": abs, "nonce": step["nonce"], "chain": chain, "insc": step["insc"], "idx": step["idx"],
                "hash": step["hash"], "ts": step["ts"], "txid": step["txid"], "id": id, "res": r.res(), "err": r.err_text(),
                "rcs": rcs, "returned_eq_served": served})
     }
